@@ -309,6 +309,13 @@ var templates = []struct {
 	{"ok", "add_key(i1, 1)\nadd_key(s1, \"x\")\nadd_key(fl, 2.5)\nadd_key(bo, true)\nset_tag(tg1, \"t\")\nprobe(\"types\", i1 + 1, s1 + \"y\", fl * 2, tg1 + \"z\", bo && true)\ncast(i1, \"str\")\nprobe(\"after\", i1 + \"s\")"},
 	{"ok", "add_key(k9, 1)\ndrop_key(k9)\nadd_key(k9, \"s\")\nset_tag(k9)\nadd_key(k9, 2)\nprobe(\"k9\", k9)\ndrop_key(k9)\nprobe(\"gone\", k9)"},
 	{"ok", "probe(\"in\", message + \"!\", n1, t1)\nadd_key(z1, 1)\nadd_key(z2, \"two\")\nprobe(\"z\", z1 + 1, z2 + \"2\")"},
+	// values that become tag text: floats and collections, another one in each script (a finished point keeps its own text)
+	{"ok", "x = 1.5\nset_tag(ft, x)\nprobe(\"ft\", ft)"},
+	{"ok", "x = 2.25\nset_tag(ft, x)\ny = 0.125\nset_tag(ft2, y)\nprobe(\"ft\", ft, ft2)"},
+	{"ok", "add_key(fl, 12.5)\nset_tag(fl)\nset_tag(t3, \"s\")\nadd_key(t3, 0.5)\nprobe(\"t\", fl, t3)"},
+	{"ok", "v = [\"alpha\", \"beta\", \"gamma\"]\nset_tag(ct, v)\nprobe(\"ct\", ct)"},
+	{"ok", "v = {\"x\": 1}\nset_tag(ct, v)\nw = [1, 2]\nset_tag(ct2, w)\nprobe(\"ct\", ct, ct2)"},
+	{"ok", "v = load_json(\"{\\\"k\\\": [1, 2, {\\\"z\\\": null}]}\")\nset_tag(ct, v)\nadd_key(cf, v)\nprobe(\"c\", ct, cf)"},
 }
 
 var badParses = []string{"b = 'x\\`y'", "b = \"x\\`y\"", "b = \"x\\\x00y\"", "b = 'x\\\x00y'", "x = \"\\x4\"", "x = '\\u12'", "x = \"\\U00110000\"", "x = \"\\777\"", "x = \"\\ud800\"", "`a\nb` = 1", "b `if`", "x '''abc'''", "a `k`\nb `q`", "f(a) \"\"\"m\"\"\"", "1 `x y`", "a = 1 `b`", "x = '''t''' '''u'''",
